@@ -516,7 +516,6 @@ impl<'m> MCTPSMBusContext<'m> {
                     let len;
 
                     match header.command_code().into() {
-                        CommandCode::Reserved => unreachable!(),
                         CommandCode::SetEndpointID => {
                             if payload[0] == MCTPSetEndpointIDOperations::SetEID as u8
                                 || payload[0] == MCTPSetEndpointIDOperations::ForceEID as u8
@@ -663,21 +662,29 @@ impl<'m> MCTPSMBusContext<'m> {
                                 unreachable!()
                             };
                         }
-                        CommandCode::ResolveEndpointID => unimplemented!(),
-                        CommandCode::AllocateEndpointIDs => unimplemented!(),
-                        CommandCode::RoutingInformationUpdate => unimplemented!(),
-                        CommandCode::GetRoutingTableEntries => unimplemented!(),
-                        CommandCode::PrepareForEndpointDiscovery => unimplemented!(),
-                        CommandCode::EndpointDiscovery => unimplemented!(),
-                        CommandCode::DiscoveryNotify => unimplemented!(),
-                        CommandCode::GetNetworkID => unimplemented!(),
-                        CommandCode::QueryHop => unimplemented!(),
-                        CommandCode::ResolveUUID => unimplemented!(),
-                        CommandCode::QueryRateLimit => unimplemented!(),
-                        CommandCode::RequestTXRateLimit => unimplemented!(),
-                        CommandCode::UpdateRateLimit => unimplemented!(),
-                        CommandCode::QuerySupportedInterfaces => unimplemented!(),
-                        _ => unimplemented!(),
+                        _ => {
+                            // Commands this endpoint doesn't implement (bridge and
+                            // bus owner commands, reserved and unknown command codes)
+                            // are answered with ErrorUnsupportedCmd
+                            let mut command_header = MCTPControlMessageHeader::new(
+                                false,
+                                false,
+                                0,
+                                CommandCode::Unknown,
+                            );
+                            command_header.set_command_code(header.command_code());
+                            let message_header = Some(&(command_header.0[..]));
+
+                            len = self
+                                .get_response()
+                                .generate_control_packet_bytes(
+                                    base_header.source_endpoint_id(),
+                                    &message_header,
+                                    &[CompletionCode::ErrorUnsupportedCmd as u8],
+                                    response_buf,
+                                )
+                                .unwrap();
+                        }
                     }
 
                     return Ok(((msg_type, payload), Some(len)));
